@@ -27,6 +27,8 @@ type Report struct {
 	VerifDir   string
 	Rule       string
 	Violations int
+	// explicit-state model checked alongside (C05): added to states / transitions of the evidence
+	ModelStates, ModelTransitions int64
 }
 
 var baseAssumptions = []string{
@@ -93,6 +95,11 @@ func (r *Report) Finish() int {
 	if infra {
 		exit = 2
 	}
+	if len(samples) == 0 {
+		samples = append(samples, "(no sample execution recorded)")
+	}
+	states += r.ModelStates
+	steps += r.ModelTransitions
 	cov := map[string]interface{}{
 		"states":                        states,
 		"transitions":                   steps,
